@@ -28,6 +28,8 @@ MANIFEST = dict(
 
 def judge(tp, s):
     out = [(p.split(" ")[0], p) for p in basic_problems(s)]
+    if s.ok and not out and "check" in tp:
+        return [("containment", p) for p in tp["check"](s)]
     if not s.ok or tp["name"] != "failing_member":
         return out
     if out:
@@ -91,6 +93,8 @@ def run(ctx):
     while len(scenarios) < nscen:
         if len(scenarios) % 10 == 9:
             scenarios.append(simlib.t_double_await(ctx.rng))
+        elif len(scenarios) % 10 == 4:
+            scenarios.append(simlib.t_stale_failure_then_spawn(ctx.rng))
         else:
             scenarios.append(simlib.t_failing_member(ctx.rng, site=sites[k % len(sites)], when=whens[(k // len(sites)) % 3]))
             k += 1
